@@ -171,6 +171,30 @@ pub fn run(a: &Args) {
                         let mut extra = json!({});
                         ev["res"] = decode(de, &s, &inp, 0, &mut extra);
                         out.ev(ev);
+                        // reader-based decoding with exactly the scratch the value needs (none for a bare fixed-width
+                        // integer, 2 bytes for the embedded "ok" string): the adapters read byte by byte and need no scratch
+                        if vi % 2 == 0 {
+                            let need = if vi % 3 == 0 { 0 } else { 2 };
+                            let eio = vi % 4 == 0;
+                            let mut scratch = vec![0u8; need];
+                            let mut rd = crate::transport::Io::reader(&inp, vec![1, 2], None);
+                            let r = catch(|| {
+                                with_shape(&s, || {
+                                    if eio {
+                                        postcard::from_eio::<DynVal, _>((crate::transport::Eio(&mut rd), &mut scratch[..])).map(|(v, _)| v.0)
+                                    } else {
+                                        postcard::from_io::<DynVal, _>((&mut rd, &mut scratch[..])).map(|(v, _)| v.0)
+                                    }
+                                })
+                            });
+                            let res = match r {
+                                Ok(Ok(v)) => json!({"ok":1,"value":v.to_json(),"used":rd.pos}),
+                                Ok(Err(e)) => json!({"ok":0,"err":errname(&e)}),
+                                Err(p) => json!({"ok":0,"err":"panic","at":p}),
+                            };
+                            out.ev(json!({"op":"rt","shape":s.to_json(),"value":v.to_json(),"enc":ENC_ENTRIES[ee],"dec": if eio {"from_eio"} else {"from_io"},
+                                          "tail":jb(&[7]),"via_owned":0,"bytes":jb(&b),"res":res,"scratch":need}));
+                        }
                         // truncations of the fixed-width field must be reported as unexpected end
                         for cut in 0..b.len() {
                             let mut ev = json!({"op":"dec","shape":s.to_json(),"input":jb(&b[..cut]),"dec":DEC_ENTRIES[de],"side":1});
